@@ -73,6 +73,22 @@ structure Ent where
   headers : List (Bytes × Bytes) := []
   deriving Repr, DecidableEq
 
+/-- What `Entity::last_modified` may return: nothing, a time at or after the Unix epoch (whole
+seconds, nanoseconds), or a time before it. -/
+inductive MTime where
+  | absent
+  | at (secs nanos : Nat)
+  | preEpoch
+  deriving Repr, DecidableEq
+
+/-- `ent.last_modified().filter(|m| *m >= UNIX_EPOCH)` at the top of `serve_inner`: an HTTP-date
+cannot express a time before the epoch, so such an entity is served as one without a
+modification time. `Ent.mtime` is the value after this filter. -/
+def usableMtime : MTime → Option (Nat × Nat)
+  | .absent => none
+  | .at s n => some (s, n)
+  | .preEpoch => none
+
 structure Resp where
   status : Nat
   headers : List (HName × HVal)
